@@ -1,4 +1,5 @@
 import Mdsort.Proofs.EvalAttRules
+import Mdsort.Proofs.EvalAttWiden
 import Mdsort.Proofs.Eval
 
 /-! Helper definitions and the final step for C03 with attachment conditions and attachment blocks
@@ -61,19 +62,33 @@ theorem InDomainA_spec {env : Env} {e : Expr} (h : InDomainA env e = true) :
       exact ⟨max s0.length (maxSubdirA e), ⟨⟨m0, hm, h.1⟩, ⟨s0, hs, Nat.le_max_left _ _⟩⟩,
         att_wfG_of_wfTreeA e false hw, h.2, Nat.le_max_right _ _, fun _ => id, hold'⟩
 
-theorem att_eval_refines_spec (env : Env) (root : Msg) (f : MFlags) (e : Expr) (rules : List Spec.RuleA)
-    (hp : Spec.parseBlockA e = some rules) (hd : InDomainA env e = true)
+/-- Decidable domain of `C03_eval_refines_spec_att_wide`: `InDomainA` (which says nothing about where
+`pass` / `break` stand - with `Spec.parseBlockA` the shape function confines them to the last place)
+and `ctlPlaced`: every action list of the tree is `placedOK`, that is, it is none of
+
+* `actionAfterPass` (something other than `pass` after a `pass`: never evaluated),
+* `attAfterBreak` (an attachment block after a `break`: its block consumes the BREAK entry),
+* `ctlMixed` (both `pass` and `break`: no documented meaning). -/
+def InDomainAW (env : Env) (e : Expr) : Bool := InDomainA env e && ctlPlaced e
+
+/-- `InDomain` for trees with `pass` / `break` anywhere (domain of `C03_eval_refines_spec_wide`). -/
+def InDomainW (env : Env) (e : Expr) : Bool := InDomain env e && ctlPlaced e
+
+theorem att_eval_refines_spec_wide (env : Env) (root : Msg) (f : MFlags) (e : Expr) (rules : List Spec.RuleA)
+    (hp : Spec.parseBlockAW e = some rules) (hd : InDomainAW env e = true)
     (hc : (Spec.evalBlockA (partCtx env root f) actionErr root rules).crosses = false)
     (hl : (Spec.evalBlockA (partCtx env root f) actionErr root rules).leaks = false) :
     let o := Spec.evalBlockA (partCtx env root f) actionErr root rules
     let r := eval env root e 0 root { ml := [], flags := f }
     r.1 = o.res ∧
       (o.res = .match → Spec.planP (mlKeysP r.2.ml) = Spec.planP (o.actions.filterMap Spec.actKeyP)) := by
+  simp only [InDomainAW, Bool.and_eq_true] at hd
+  obtain ⟨hd, hplaced⟩ := hd
   obtain ⟨L, hctx, hok⟩ := InDomainA_spec hd
   rw [partCtx_eq, actionErr_eq] at hc hl ⊢
   cases e with
   | block lno e' =>
-    simp only [Spec.parseBlockA] at hp
+    simp only [Spec.parseBlockAW] at hp
     have hR0 : RelA L ({ ml := [], flags := f } : St).ml
         ({ pend := [], crosses := false, leaks := false } : Spec.RunA).pend (false || false) :=
       ⟨rfl, rfl, rfl, by simp, by intro m hm; simp at hm⟩
@@ -87,7 +102,8 @@ theorem att_eval_refines_spec (env : Env) (root : Msg) (f : MFlags) (e : Expr) (
       rw [h] at hc hl
       cases b <;> exact ⟨hc, hl⟩
     have hpost := (att_sim hctx root f (hasOld (.block lno e')) (sizeOf rules + 1)).1 rules (Nat.lt_succ_self _)
-      (orChain e') (att_parseRulesA_orChain e' rules hp) 0 root (att_okA_orChain e' (okA_block hok)) false false 0 false
+      (orChain e') (att_parseRulesA_orChain e' rules hp) 0 root (att_okA_orChain e' (okA_block hok))
+      (ctlPlaced_orChain e' (by simpa [ctlPlaced] using hplaced)) false false 0 false
       { pend := [], crosses := false, leaks := false } { ml := [], flags := f } (fun _ => ⟨rfl, rfl⟩) hR0 (fun _ => rfl)
       hflags.1 hflags.2
     rw [← att_eval_orChain, ← eval_block env root lno] at hpost
@@ -118,6 +134,18 @@ theorem att_eval_refines_spec (env : Env) (root : Msg) (f : MFlags) (e : Expr) (
       simp only at ho
       rw [ho]
       exact ⟨hpost.1, fun h => by cases h⟩
-  | _ => simp [Spec.parseBlockA] at hp
+  | _ => simp [Spec.parseBlockAW] at hp
+
+/-- `pass` / `break` last: the special case `Spec.parseBlockA` / `InDomainA` of the theorem above. -/
+theorem att_eval_refines_spec (env : Env) (root : Msg) (f : MFlags) (e : Expr) (rules : List Spec.RuleA)
+    (hp : Spec.parseBlockA e = some rules) (hd : InDomainA env e = true)
+    (hc : (Spec.evalBlockA (partCtx env root f) actionErr root rules).crosses = false)
+    (hl : (Spec.evalBlockA (partCtx env root f) actionErr root rules).leaks = false) :
+    let o := Spec.evalBlockA (partCtx env root f) actionErr root rules
+    let r := eval env root e 0 root { ml := [], flags := f }
+    r.1 = o.res ∧
+      (o.res = .match → Spec.planP (mlKeysP r.2.ml) = Spec.planP (o.actions.filterMap Spec.actKeyP)) := by
+  obtain ⟨hpw, hpl⟩ := att_parseBlockAW_of_parseBlockA hp
+  exact att_eval_refines_spec_wide env root f e rules hpw (by simp [InDomainAW, hd, hpl]) hc hl
 
 end Mdsort.Proofs
